@@ -217,7 +217,7 @@ VARIANTS = [
     V( 'pathstop-break-hides-later-symbolic', DEVICE, "continue # All desired terms specified; done! (ie. ignore subsequent 'element')", "break # All desired terms specified; done! (ie. ignore subsequent 'element')", fires=[ 'D-PATHSTOP' ], why='defect AC' ),
     V( 'retag-old-attribute-stored-back', LOGIX, "instance.attribute[str(att)] \\\n = val['attribute']", "instance.attribute[str(att)] = attribute", fires=[ 'T-RETAG' ], why='defect AD' ),
     V( 'retag-dotted-form', LOGIX, "instance.attribute[str(att)] \\\n = val['attribute']", "instance.attribute[str(att)] = val.attribute", silent=[ 'T-RETAG' ] ),
-    V( 'reserved-level-unchecked', DOT, "if mine in self.__invalid_keys__ or mine.startswith( '__' ):\n # Neither as a value, nor as a (newly created) level\n raise KeyError( \"A dotdict cannot support insertion of item/attribute with name {!r}\".format( mine ))\n if rest:", "if not rest and ( mine in self.__invalid_keys__ or mine.startswith( '__' )):\n            raise KeyError( \"A dotdict cannot support insertion of item/attribute with name {!r}\".format( mine ))\n        if rest:", fires=[ 'T-RESERVED' ], why='defect AF' ),
+    V( 'reserved-level-unchecked', DOT, "if mine in self.__invalid_keys__ or mine.startswith( '__' ):\n # Neither as a value, nor as a (newly created) level\n raise KeyError( \"A dotdict cannot support insertion of item/attribute with name {!r}\".format( mine ))\n if rest is not None:", "if not rest and ( mine in self.__invalid_keys__ or mine.startswith( '__' )):\n            raise KeyError( \"A dotdict cannot support insertion of item/attribute with name {!r}\".format( mine ))\n        if rest is not None:", fires=[ 'T-RESERVED' ], why='defect AF' ),
     V( 'regex-dead-target-expanded', AUTO, "if states.get( nxt ) is None and states[pre].get( True ) is None:\n # Into a \"dead\" state, and no (live) wildcard to be told apart from at a\n # later symbol: reject at the first encoded symbol, consuming none of them.\n xformed = xformed[:1]", "pass", fires=[ 'X-FROMREGEX' ], why='defect AG' ),
     V( 'regex-dead-target-via-local', AUTO, "if states.get( nxt ) is None and states[pre].get( True ) is None:", "deadend		= nxt not in states\n                    if deadend and states[pre].get( True ) is None:", silent=[ 'X-FROMREGEX' ] ),
     # ---- round 4
@@ -449,6 +449,14 @@ VARIANTS = [
     V( 'collect-timeout-as-deadline', CLIENT, "response,elapsed= await_response( self, timeout=timeout )", "response,elapsed= await_response( self, timeout=None if timeout is None else max( 0, timeout - 1 ))", fires=[ 'K-TIMEOUT' ], why='seed C12 round 6' ),
     V( 'process-setup-after-parse', LOGIX, "ucmm = setup( **kwds )\n\n source = rememberable()", "source			= rememberable()\n    ucmm			= setup( **kwds )", fires=[ 'C-MAIN' ], why='seed C15 round 6' ),
     V( 'hfiles-glob-pattern', HFILES, "for n in os.listdir( self.dirs or '.' )\n if n == self.name or n.startswith( self.name + '.' )), key=natural ):", "for n in map( os.path.basename, glob.glob( self.path + '*' ))), key=natural ):", fires=[ 'H-FILES' ], why='seed C18 round 6' ),
+    V( 'producible-unregister-without-produce', PARSER, "@staticmethod\n def produce( data ):\n \"\"\"UnregisterSession carries no payload.\"\"\"\n return b''", "pass", fires=[ 'L-PRODUCIBLE' ], why='defect BJ reverted' ),
+    V( 'validate-refused-write-keeps-data', CLIENT, "if reply and reply.status and ( 'write_frag' in reply or 'write_tag' in reply ):\n val = None # a refused write has no value; its data was only used for the line", "pass", fires=[ 'K-VALIDATE' ], why='defect BK reverted' ),
+    V( 'context-index-unbounded', CLIENT, "return str( index % 10**8 ).encode( 'iso-8859-1' )", "return str( index ).encode( 'iso-8859-1' )", fires=[ 'T-CONTEXT' ], why='defect BL reverted' ),
+    V( 'context-index-hex', CLIENT, "return str( index % 10**8 ).encode( 'iso-8859-1' )", "return ( '%08x' % ( index & 0xFFFFFFFF )).encode( 'iso-8859-1' )", silent=[ 'T-CONTEXT' ] ),
+    V( 'atomic-rest-by-truthiness', DOT, "if rest is not None:\n if not rest:\n # A trailing '.' names nothing (as for lookup)\n raise KeyError( 'cannot set \"%s\" in \"%s\" from key \"%s\"' % ( rest, mine, key ))", "if rest:", fires=[ 'D-ATOMIC' ], why='defect BM (trailing dot) reverted' ),
+    V( 'atomic-level-created-first', DOT, "target = dotdict()\n target[rest] = value\n super( dotdict_base, self ).__setitem__( mine, target )\n return", "target          = super( dotdict_base, self ).setdefault( mine, dotdict() )", fires=[ 'D-ATOMIC' ], why='defect BM (level left behind) reverted' ),
+    V( 'atomic-del-through-leaf', DOT, "if not isinstance( target, dotdict_base ):\n # A path leading through something that is not a level names nothing (as for lookup)\n raise KeyError( 'cannot del \"%s\" in \"%s\" (%r)' % ( rest, mine, target ))", "pass", fires=[ 'D-ATOMIC' ], why='defect BM (del) reverted' ),
+    V( 'lone-error-reply-direct', DEVICE, "try:\n target.request( req, addr=addr )\n except Exception as exc:\n req.pop( Message_Router.SV_COD_CTX, None )\n req.pop( 'status_ext', None )\n req.service = req.get( 'service', 0 ) | 0x80\n if not req.get( 'status' ):\n req.status = 0x08 # Service not supported\n req.input = bytearray( Object.produce( req ))", "req.service	= req.get( 'service', 0 ) | 0x80\n            req.status		= 0x08\n            req.input		= bytearray( Object.produce( req ))", silent=[ 'S-LONE', 'P-REPLYBIT' ], why='the earlier, simpler form of the repair: still answers' ),
 ]
 
 
